@@ -3,7 +3,7 @@
 proof  : Properties/C13.v  (model SpanOps.v = declarative spec, all strings / all valid spans)
 T2     : extracted SpanOps.v model  vs  pest_typed::Span (harness/unitpos)
 T3     : pest_typed::Span           vs  pest::Span 2.7.14 (same harness)          -- the property's oracle
-cases  : every string of <= N characters over {LF, CR, a, e-acute(2), zhong(3)} (N = 4 quick / 6 thorough)
+cases  : every string of <= N characters over {LF, CR, a, e-acute(2), zhong(3)} (N = 5 quick / 7 thorough)
          x every (start, end) in 0..=len+1 squared (valid, inverted, out of range, inside a character)
          x for every valid span: split, as_str, lines_span, lines, get for the 6 range forms and the
            (Excluded, Included) tuple over all bounds 0..=sublen+1 and usize::MAX, merge_spans / == / Hash
@@ -67,7 +67,7 @@ def check(ctx):
         ctx.violation("C13 machinery does not build", {"obligations": [n for n, o, _ in ctx.obligations if not o]}, found_input=False)
         return ctx.finish(level="proof", trusted_base=tb.BASE)
 
-    maxlen = 4 if ctx.tier == "quick" else 6
+    maxlen = 5 if ctx.tier == "quick" else 7
     nrand = 30 if ctx.tier == "quick" else 300
     ctx.nontrivial = ll.CountSet()
     ctx.rule = ("distinct operations (new/split/as_str/lines/lines_span per span, each get call, each merge pair) on "
